@@ -29,11 +29,13 @@ PLANS = {
         "bounds": "all documents of depth<=1 width<=W over 8 atoms, depth 2 width 2 over 8 representative containers, 28 wide atoms; W=2 quick, 3 thorough",
     },
     "C05": {
+        "must_see": ["get_by_index:bytes", "get_by_index:none", "get_by_name:bytes", "get_by_name:none", "get_by_keypath:bytes", "get_by_keypath:none", "object_keys:bytes", "object_keys:none", "type_of:name"],
         "drive": [{"kind": "acc", "count": {"quick": 1500, "thorough": 30000}}],
         "gen": [gen("acc", "acc", ACC_OPS)],
         "bounds": "every document of the bounded universe x every index -1..len+1, every present key/case variant/prefix/extension, every key path to depth+1",
     },
     "C06": {
+        "must_see": ["delete_by_index:bytes", "delete_by_index:err", "object_insert:err", "object_insert:bytes", "delete_by_keypath:err", "delete_by_keypath:bytes", "object_delete:err"],
         "drive": [{"kind": "edit", "count": {"quick": 1500, "thorough": 30000}}, {"kind": "pairs:concat", "count": {"quick": 500, "thorough": 8000}}],
         "gen": [gen("edit", "edit", EDIT_OPS, wq=1, wt=2),
                 gen("concat", "pairs", ["concat"]),
@@ -41,6 +43,7 @@ PLANS = {
         "bounds": "bounded universe x all positions -len-2..len+2, all key subsets <=3, all key paths to depth+1; builders: all lists <=3 with keys in every order and duplicates",
     },
     "C02": {
+        "must_see": ["parse_value:doc", "parse_value:err"],
         "drive": [{"kind": "text", "count": {"quick": 1500, "thorough": 30000}}],
         "gen": [
             {"name": "corrupt", "module": "GenText", "constants": {"Family": '"corrupt"', "MaxLen": "0"}},
@@ -58,7 +61,8 @@ PLANS = {
     },
     "C04": {
         "drive": [{"kind": "pairs:compare", "count": {"quick": 1500, "thorough": 30000}}, {"kind": "pairs_repr:compare", "count": {"quick": 400, "thorough": 6000}}],
-        "gen": [gen("cmp", "pairs", ["compare"]), gen("cmp2", "pairs2", ["compare"])],
+        "gen": [{"name": "laws", "module": "Laws", "constants": {"Family": '"docs"', "Stride": "1"}, "invariants": ["LawInv"], "tiers": ("thorough",), "timeout": 3000},
+                gen("cmp", "pairs", ["compare"]), gen("cmp2", "pairs2", ["compare"])],
         "bounds": "all ordered pairs of the 70-document pair universe (number encodings of equal value, 2^53 neighbours, prefixes, length-only and deep differences)",
     },
     "C07": {
@@ -71,6 +75,7 @@ PLANS = {
         "bounds": "exhaustive: every enabled step (19 functions x arguments drawn from the current documents x source/destination registers) from every pair of start documents; random walks of the state machine: quick 1500 walks x 6 steps, thorough 20000 x 10, each replayed on the real crate with its own output bytes threaded from call to call and all results appended to one buffer",
     },
     "C08": {
+        "must_see": ["select:select"],
         "gen": [
             {"name": "nav", "module": "GenPath", "constants": {"Family": '"nav"'}, "tier_constants": {"quick": {"MaxSteps": "1"}, "thorough": {"MaxSteps": "2"}}},
             {"name": "filter", "module": "GenPath", "constants": {"Family": '"filter"', "MaxSteps": "0"}},
@@ -80,6 +85,7 @@ PLANS = {
         "bounds": "21 documents (scalar roots, empty containers, arrays of objects, container-valued members, number encodings) x navigation step sequences of <= N steps over 26 steps (wildcards, three name spellings, 19 index lists incl. last+-k, ranges, negative and i32-extreme values) and 170 filter steps (6 operators x operand paths x 10 literals, literal-left, path-vs-path, root-relative, &&/|| nesting, exists, nested filters) in 4 positions, 40 stand-alone predicates, arithmetic expressions and 64-bit-overflowing index forms",
     },
     "C09": {
+        "must_see": ["jp_parse:path", "jp_parse:err"],
         "gen": [
             {"name": "paths", "module": "GenSyntax", "constants": {"Family": '"paths"'}},
             {"name": "pathfaults", "module": "GenSyntax", "constants": {"Family": '"pathfaults"'}},
@@ -97,6 +103,7 @@ PLANS = {
         "bounds": "the C08 (document, path) universe: for each, all four modes through the Selector API, the three convenience functions, exists/path_exists, predicate_match/path_match, into empty and pre-filled buffers; data and offsets compared with the specification's ModeItems",
     },
     "C16": {
+        "must_see": ["kp_parse:kp", "kp_parse:err"],
         "gen": [
             {"name": "kp", "module": "GenSyntax", "constants": {"Family": '"kp"'}},
             {"name": "kpfaults", "module": "GenSyntax", "constants": {"Family": '"kpfaults"'}},
@@ -105,6 +112,7 @@ PLANS = {
         "bounds": "all key paths of <=2 elements over 16 elements (indices 0, +-1, i32 min/max; plain, multi-byte, quoted, empty-quoted, escaped-quote, backslash, digit-quoted names) plus longer lists x 3 spacings; 8 certainly-invalid edits per path; byte soups",
     },
     "C10": {
+        "must_see": ["decode:doc", "decode:err"],
         "drive": [{"kind": "decode", "count": {"quick": 2000, "thorough": 40000}}],
         "gen": [
             {"name": "fault", "module": "GenFault", "constants": {"Family": '"fault"', "Double": "FALSE"}},
@@ -115,7 +123,7 @@ PLANS = {
         "assumptions": ["root header counts >= 2^24 are excluded: the decoder's pre-allocation would then depend on the host's overcommit policy"],
     },
     "C11": {
-        "drive": [{"kind": "repr", "count": {"quick": 1200, "thorough": 20000}}, {"kind": "pairs_repr", "count": {"quick": 800, "thorough": 15000}}],
+        "drive": [{"kind": "repr", "count": {"quick": 1200, "thorough": 20000}}, {"kind": "serde_repr", "count": {"quick": 500, "thorough": 8000}}, {"kind": "pairs_repr", "count": {"quick": 800, "thorough": 15000}}],
         "gen": [gen("acc11", "acc11", ACC_OPS + ["to_string", "to_pretty_string", "lazy", "comparable_all"], rp="{1, 2, 3}"),
                 gen("edit11", "edit11", EDIT_OPS + ["array_distinct"], rp="{0, 1, 3}"),
                 gen("pairs11", "pairs11", ["compare", "contains", "concat", "array_intersection", "array_except", "array_overlap"], rp="{0, 2, 3}")],
@@ -124,7 +132,8 @@ PLANS = {
     },
     "C12": {
         "drive": [{"kind": "pairs:contains", "count": {"quick": 1500, "thorough": 30000}}],
-        "gen": [gen("contains", "pairs", ["contains"]), gen("contains2", "pairs2", ["contains"])],
+        "gen": [{"name": "laws", "module": "Laws", "constants": {"Family": '"docs"', "Stride": "1"}, "invariants": ["LawInv"], "tiers": ("thorough",), "timeout": 3000},
+                gen("contains", "pairs", ["contains"]), gen("contains2", "pairs2", ["contains"])],
         "bounds": "all ordered pairs of the pair universe",
     },
     "C13": {
@@ -156,12 +165,15 @@ PLANS = {
         "bounds": "all ordered pairs of the 70-document pair universe and of the 92-document structured universe",
     },
     "C18": {
+        "must_see": ["num_decode:num", "num_decode:err", "num_cmp:numcmp", "num:numinfo"],
         "drive": [{"kind": "num", "count": {"quick": 2000, "thorough": 40000}}],
-        "gen": [gen("num", "num", ["num", "num_decode", "casts"]),
+        "gen": [{"name": "laws", "module": "Laws", "constants": {"Family": '"num"', "Stride": "1"}, "invariants": ["LawInv"]},
+                gen("num", "num", ["num", "num_decode", "casts"]),
                 gen("numpairs", "numpairs", ["num_cmp"])],
         "bounds": "80-number boundary set (every width boundary +-1 of both integer encodings, 2^53/2^63/2^64 neighbourhoods, IEEE class boundaries): all numbers, all ordered pairs; decoder: 11 tags x 3 fillers x lengths 0..10",
     },
     "C20": {
+        "must_see": ["deep:ok"],
         "gen": [gen("extreme", "extreme", ["delete_by_index", "array_insert", "get_by_keypath", "delete_by_keypath", "get_by_index"], rp="{0, 1}"),
                 {"name": "extremepath", "module": "GenPath", "constants": {"Family": '"err"', "MaxSteps": "0"}},
                 {"name": "limits", "module": "Limits", "constants": {"W": "6"}, "invariants": ["OutcomeOk"]},
